@@ -134,6 +134,17 @@ GitTreesExact(h, o) == o.ok /\ Unfold(o.P, [r \in 1..Len(o.P) |-> Forget(ObsHist
 \* cache), s.scratch[r] (no parents, empty cache); staged pushes create the commits a single push creates.
 LawIncremental(h, s) == s.ok /\ \A r \in 1..Len(s.scratch) : s.warm[r] = s.scratch[r] /\ s.coldp[r] = s.scratch[r]
 LawStaged(h, s) == s.ok /\ s.staged = s.oneshot
+\* C35 -- the objects generated for a revision incrementally are the objects a from-scratch conversion generates:
+\* s.emit[r] = the objects [id, refs] emitted for revision r when the revisions are converted in order with their parent
+\* trees and a cache that has seen the earlier revisions; s.full[r] = the ids of all blobs and trees of revision r
+\* converted alone with no parent and an empty cache.  ObjectClosure: what an emitted object refers to has been
+\* emitted for this or an earlier revision (a pack built from the emitted objects is complete).  ObjectSets: over the
+\* whole history nothing a from-scratch conversion produces is missing, nothing else (but the commits) is produced.
+EmitIds(s, r) == {o.id : o \in s.emit[r]}
+SeenUpTo(s, r) == UNION {EmitIds(s, q) : q \in 1..r}
+LawObjectClosure(h, s) == s.ok /\ \A r \in 1..Len(s.emit) : \A o \in s.emit[r] : o.refs \subseteq SeenUpTo(s, r)
+LawObjectSets(h, s) == s.ok /\ Len(s.emit) = Len(s.full)
+                            /\ {i \in SeenUpTo(s, Len(s.emit)) : i \notin s.commits} = UNION {s.full[r] : r \in 1..Len(s.full)}
 
 \* C35 -- GitOriginStable: g.orig[r] = [commit, tree, objs] of the git commit at position r,
 \* g.exp[r] what the object store of the imported repository reproduces for it.
@@ -156,8 +167,9 @@ FastRoundTrip(h, o) == o.ok /\ o.nrevs = Projection(h).n /\ Projection(ObsHist(o
 GitLawNames == <<"shape", "trees">>
 GitLaw(n, h, o) == CASE n = "shape" -> LawGitShape(h, o) [] n = "trees" -> LawGitTrees(h, o)
 GitFailed(h, o) == {n \in SeqRange(GitLawNames) : ~GitLaw(n, h, o)}
-ShaLawNames == <<"incremental", "staged">>
+ShaLawNames == <<"incremental", "staged", "closure", "objects">>
 ShaLaw(n, h, s) == CASE n = "incremental" -> LawIncremental(h, s) [] n = "staged" -> LawStaged(h, s)
+                     [] n = "closure" -> LawObjectClosure(h, s) [] n = "objects" -> LawObjectSets(h, s)
 ShaFailed(h, s) == {n \in SeqRange(ShaLawNames) : ~ShaLaw(n, h, s)}
 FastLawNames == <<"count", "shape", "left", "trees", "message", "committer", "time", "tags">>
 FastLaw(n, h, o) == CASE n = "count" -> LawFastCount(h, o) [] n = "shape" -> LawFastShape(h, o)
@@ -165,6 +177,38 @@ FastLaw(n, h, o) == CASE n = "count" -> LawFastCount(h, o) [] n = "shape" -> Law
                       [] n = "message" -> LawFastMsg(h, o) [] n = "committer" -> LawFastWho(h, o)
                       [] n = "time" -> LawFastTime(h, o) [] n = "tags" -> LawFastTags(h, o)
 FastFailed(h, o) == {n \in SeqRange(FastLawNames) : ~FastLaw(n, h, o)}
+
+(* ------------------------------------------------------------------ transfers in rounds
+   A history need not cross a channel at once: first the part a revision k reaches, later the rest, into the SAME
+   target.  The part reached by k is a history of its own (Upto); the ideal channel carries it like any other, and
+   what the target holds after the last round is what a single transfer gives.  GitRoundTrip is therefore also
+   stated on o.rt2, the target filled in two rounds (cut at a parent of the tip). *)
+Upto(h, k) == BranchPart([h EXCEPT !.tip = k])
+LawGitShape2(h, o) == LawGitShape(h, o)
+LawGitTrees2(h, o) == LawGitTrees(h, o)
+Git2LawNames == <<"staged-shape", "staged-trees">>
+Git2Failed(h, o) == {n \in SeqRange(Git2LawNames) :
+                       ~(CASE n = "staged-shape" -> LawGitShape2(h, o) [] n = "staged-trees" -> LawGitTrees2(h, o))}
+
+(* ------------------------------------------------------------------ abstract git objects of a tree
+   One tree object per directory that git keeps (root included), one blob per file / symlink; a tree object is its
+   content relative to the directory, so equal sub-trees are one object, as in git. *)
+RelTree(t, d) == {[p |-> SubSeq(e.p, Len(d) + 1, Len(e.p)), k |-> e.k, c |-> e.c, x |-> e.x] :
+                    e \in {e \in DropEmptyDirs(t) : PathPrefix(d, e.p)}}
+TreeId(t, d) == [k |-> "tree", v |-> RelTree(t, d)]
+BlobId(e) == [k |-> "blob", v |-> <<e.k, e.c>>]
+KeptDirs(t) == {<<>>} \cup {e.p : e \in {e \in DropEmptyDirs(t) : e.k = "directory"}}
+ObjRefs(t, d) == {TreeId(t, e.p) : e \in {e \in DropEmptyDirs(t) : ParentPath(e.p) = d /\ e.k = "directory"}}
+                 \cup {BlobId(e) : e \in {e \in t : ParentPath(e.p) = d /\ e.k # "directory"}}
+AbsObjects(t) == {[id |-> TreeId(t, d), refs |-> ObjRefs(t, d)] : d \in KeptDirs(t)}
+                 \cup {[id |-> BlobId(e), refs |-> {}] : e \in {e \in t : e.k # "directory"}}
+\* the ideal incremental conversion: for every revision the objects not produced for an earlier one
+IdealObjects(h) ==
+    LET ids(r) == {o.id : o \in AbsObjects(h.T[r])}
+        before(r) == UNION {ids(q) : q \in 1..(r - 1)} IN
+    [ok |-> TRUE, commits |-> {},
+     emit |-> [r \in RevsOf(h) |-> {o \in AbsObjects(h.T[r]) : o.id \notin before(r)}],
+     full |-> [r \in RevsOf(h) |-> ids(r)]]
 
 (* ------------------------------------------------------------------ the ideal channels (the specification of
    the implementation: identity on the projection; revision numbers and object identities are NOT preserved) *)
